@@ -71,7 +71,20 @@ def handle (m : String) (j : Json) : Except String Json := do
     let mx ← getInt j "max"
     let st ← getInt j "step"
     let k ← getNat j "k"
-    pure (Json.mkObj [("n", jInt (rnCount mn mx st)), ("out", rrToJson (randomNumber mn mx st k))])
+    let mode := match optField j "mode" with
+      | some (Json.str "formula_v2") => ArgMode.formulaV2
+      | _ => ArgMode.native
+    match randomNumberVia mode mn mx st k with
+    | .typeError => pure (Json.mkObj [("n", jInt (rnCount mn mx st)), ("out", tag "type_error")])
+    | .out o =>
+      -- what the output stream receives when the result is re-rendered in the v2 dialect
+      let rendered : Json := match o with
+        | .value x => (match renderV2 x with
+            | .ok (.int i) => tag "int" [jInt i]
+            | .ok (.str t) => tag "str" [Json.str t]
+            | _ => tag "other")
+        | _ => Json.null
+      pure (Json.mkObj [("n", jInt (rnCount mn mx st)), ("out", rrToJson o), ("rendered_v2", rendered)])
   | "c11.choice_list" =>
     pure (choiceToJson (randomChoiceList (← getNat j "n") (← getNat j "k")))
   | "c11.choice_items" =>
